@@ -151,6 +151,12 @@ def compare(ex, books, now):
     signs = np.array([1, -1, 0, 1, -1])
     want_acq = [rb.ask if s > 0 else rb.bid if s < 0 else (rb.ask + rb.bid) / 2 for rb, s in zip(rbs, signs)]
     want_liq = [rb.bid if s > 0 else rb.ask if s < 0 else (rb.ask + rb.bid) / 2 for rb, s in zip(rbs, signs)]
+    # the same queries with QUANTITIES (fractional, large, tiny) instead of unit signs: only the sign may matter
+    qs = np.array([0.5, -0.25, 0.0, 2.5, -1e-9])
+    for what, got, want in (("acq_prices(quantities)", ex.acq_prices(ks, qs), want_acq), ("liq_prices(quantities)", ex.liq_prices(ks, qs), want_liq),
+                            ("acq_prices(list of quantities)", ex.acq_prices(ks, [0.5, -0.25, 0, 3, -2]), want_acq)):
+        if len(got) != len(want) or any(not same(g, w) for g, w in zip(got, want)):
+            msgs.append("%s vector is %r, expected %r" % (what, list(got), want))
     for what, got, want in (("acq_prices", ex.acq_prices(ks, signs), want_acq), ("liq_prices", ex.liq_prices(ks, signs), want_liq),
                             ("bid_prices", ex.bid_prices(ks), [r.bid for r in rbs]), ("ask_prices", ex.ask_prices(ks), [r.ask for r in rbs]),
                             ("mid_prices", ex.mid_prices(ks), [(r.bid + r.ask) / 2 for r in rbs]),
